@@ -20,7 +20,8 @@ Dialect rules (the only differences between the verified text and the text that 
   D1  GAT erasure in signatures/bodies:  ::ReadItem<'x>  ->  ::ReadItem ;  ::Iter<'x> -> ::Iter
   D2  pattern parameter `(a, b): T`  ->  `index: T` + `let (a, b) = index;` as first statement
   D3  `-> T`  ->  `-> (r: T)`
-  D6  debug_assert_eq!(a, b)  ->  assert!(a == b)     (obligation: the debug assertion never fires)
+  D6  debug_assert_eq!(a, b) / assert_eq!(a, b)  ->  assert!(a == b)  (likewise _ne, debug_assert!)
+      (total reading: obligation that the assertion never fires; fail-stop reading: D7 turns it into a divergence)
   D7  fail-stop reading: assert!(c, ...) -> if !(c) { diverge() } ; panic!(..) -> diverge() ;
       x[i] on Vec/slice -> checked_index(x, i)   (only when reading=failstop)
   D13 explicit token substitutions given in a directive (`subst="Self::Item=>usize"`), for associated
@@ -131,14 +132,22 @@ def _split_top_commas_angle(args):
 
 
 def rule_D6(text, log):
-    calls = _find_macro_calls(text, "debug_assert_eq")
+    n = 0
+    for mac, op in (("debug_assert_eq", "=="), ("debug_assert_ne", "!="), ("assert_eq", "=="), ("assert_ne", "!=")):
+        calls = _find_macro_calls(text, mac)
+        for (s, e, args) in reversed(calls):
+            parts = _split_top_commas(args)
+            if len(parts) < 2:
+                raise WorldError(f"{mac}! with <2 args")
+            text = text[:s] + f"assert!(({parts[0]}) {op} ({parts[1]}))" + text[e:]
+        n += len(calls)
+    calls = _find_macro_calls(text, "debug_assert")
     for (s, e, args) in reversed(calls):
         parts = _split_top_commas(args)
-        if len(parts) < 2:
-            raise WorldError("debug_assert_eq! with <2 args")
-        text = text[:s] + f"assert!(({parts[0]}) == ({parts[1]}))" + text[e:]
-    if calls:
-        log.append(f"D6 x{len(calls)}")
+        text = text[:s] + f"assert!({parts[0]})" + text[e:]
+    n += len(calls)
+    if n:
+        log.append(f"D6 x{n}")
     return text
 
 
